@@ -35,7 +35,9 @@ EXPLANATION = (
     ' '
     'R-C15.12 the evolve command queues the purge after every app task.'
     ' '
-    'R-C15.13 model field defaults in models.py are callables or constants, not call results.')
+    'R-C15.13 model field defaults in models.py are callables or constants, not call results.'
+    ' '
+    'R-C15.14 queue_purge_old_apps iterates initial_diff.deleted in stored order (list()/tuple() wrappers accepted, sorted()/reversed()/set() not): a stale app referencing another stale app must be prepared while that app is still in the signature.')
 NOT_DECIDED = (
     'Non-interference with other apps\' tables and rows for every project '
     'layout (prefix table names, shared m2m tables).')
@@ -245,9 +247,37 @@ def r3_purge_opt_in(ctx):
                     'opt-in flag defaulting to False', key='purge-default')
     q = p.func('evolve.evolver', 'Evolver.queue_purge_old_apps')
     loops = [l for l in walk_no_nested(q.node) if isinstance(l, ast.For)]
-    if loops and unparse(loops[0].iter) == 'self.initial_diff.deleted':
+    it, reordered = (loops[0].iter if loops else None), None
+    while isinstance(it, ast.Call) and len(it.args) >= 1 and \
+            (call_name(it) or '') in ('list', 'tuple', 'iter', 'iterkeys',
+                                      'sorted', 'reversed', 'set',
+                                      'frozenset'):
+        if call_name(it) in ('sorted', 'reversed', 'set', 'frozenset'):
+            reordered = call_name(it)
+        it = it.args[0]
+    if isinstance(it, ast.Call) and isinstance(it.func, ast.Attribute) and \
+            it.func.attr == 'keys' and not it.args:
+        it = it.func.value
+    if it is not None and unparse(it) == 'self.initial_diff.deleted':
         ctx.ok(q, 'purges exactly the apps in initial_diff.deleted',
                loops[0])
+        # R-C15.14: ... in the order they are stored in.  A stale app whose
+        # models reference another stale app can only be prepared while the
+        # other app's signature is still there; the stored order is the one
+        # the apps were installed (and so could be referenced) in, any
+        # re-ordering by label makes such a purge abort with
+        # MissingSignatureError and remove nothing.
+        ctx.rule('R-C15.14')
+        if reordered:
+            ctx.finding(q, loops[0].iter, 'queue_purge_old_apps re-orders '
+                        'the stale apps with %s(): a stale app that '
+                        'references another one is prepared after the app '
+                        'it references has been removed from the signature, '
+                        'and the purge aborts without removing anything' %
+                        reordered, key='purge-order-changed')
+        else:
+            ctx.ok(q, 'stale apps are purged in stored order', loops[0])
+        ctx.rule('R-C15.3')
     else:
         ctx.finding(q, None, 'queue_purge_old_apps does not iterate '
                     'initial_diff.deleted', key='purge-set')
